@@ -173,6 +173,24 @@ func c15ident(v value.Value) string {
 	return v.Ident()
 }
 
+// c15othersText is the text of every instruction and terminator of u's function except u itself.
+func c15othersText(u c15user) string {
+	var b strings.Builder
+	fw.Try(func() {
+		for _, blk := range u.fn.Blocks {
+			for _, in := range blk.Insts {
+				if interface{}(in) != interface{}(u.user) {
+					b.WriteString(in.LLString() + "\n")
+				}
+			}
+			if blk.Term != nil && interface{}(blk.Term) != interface{}(u.user) {
+				b.WriteString(blk.Term.LLString() + "\n")
+			}
+		}
+	})
+	return b.String()
+}
+
 // c15checkWrites: writing a replacement through each slot changes exactly one occurrence.
 func c15checkWrites(c *fw.Check, u c15user) int {
 	ops := u.user.Operands()
@@ -183,12 +201,17 @@ func c15checkWrites(c *fw.Check, u c15user) int {
 		}
 		old := *op
 		s0 := u.ll()
+		others0 := c15othersText(u)
 		name := fmt.Sprintf("REPL%d", i)
 		rep := c15repl(old, name)
 		*op = rep
 		var s1 string
 		p := fw.Try(func() { s1 = u.ll() })
+		others1 := c15othersText(u)
 		*op = old
+		if others0 != others1 {
+			c.Violation("write/changes-another-user/"+u.kind, c15case{Func: u.fn.Name(), Kind: u.kind, Inst: s0, Slot: i, What: "writing through the slot changed the text of ANOTHER instruction of the function: " + firstDiff(others0, others1)})
+		}
 		s2 := u.ll()
 		n++
 		cs := c15case{Func: u.fn.Name(), Kind: u.kind, Inst: s0, Slot: i}
@@ -271,8 +294,42 @@ func c15checkSuccs(c *fw.Check, u c15user, after string) {
 	}
 }
 
+var c15twinRe = regexp.MustCompile(`^  (%[-a-zA-Z$._0-9]+) = ([a-z_]+) `)
+
+// c15twinned doubles every instruction of the catalogue inside its function: the copy has the same
+// text (same callee, arguments, operand bundles, constant expressions, metadata) and a result name
+// of its own. Two users with textually identical parts in one function must still own their
+// operand slots (a translator that shares sub-objects between equal-looking instructions shows
+// here). Pads, phis' positions and terminators keep the block structure valid.
+func c15twinned(text string) string {
+	var b strings.Builder
+	skip := map[string]bool{"landingpad": true, "catchpad": true, "cleanuppad": true, "catchswitch": true, "invoke": true, "callbr": true, "alloca": false}
+	voidOps := map[string]bool{"store": true, "fence": true, "call": true, "tail": true, "musttail": true, "notail": true}
+	for _, l := range strings.Split(text, "\n") {
+		b.WriteString(l + "\n")
+		if m := c15twinRe.FindStringSubmatch(l); m != nil {
+			if skip[m[2]] || strings.Contains(l, "musttail") {
+				continue
+			}
+			b.WriteString("  " + m[1] + ".twin = " + l[len(m[0])-len(m[2])-1:] + "\n")
+			continue
+		}
+		f := strings.Fields(l)
+		if strings.HasPrefix(l, "  ") && len(f) > 0 && voidOps[f[0]] && !strings.Contains(l, "musttail") {
+			b.WriteString(l + "\n")
+		}
+	}
+	return b.String()
+}
+
 func c15parse() *ir.Module {
-	m, err := asm.ParseString("c15.ll", c15text)
+	text := c15twinned(c15text)
+	if fw.HaveLLVM() {
+		if ok, e := fw.LLVMAccepts(text); !ok {
+			fw.Fatalf("C15 twinned catalogue is not valid LLVM: %s", e)
+		}
+	}
+	m, err := asm.ParseString("c15.ll", text)
 	if err != nil {
 		fw.Fatalf("C15 catalogue does not parse: %v", err)
 	}
@@ -314,7 +371,7 @@ func runC15(c *fw.Check) {
 	if !TreegenAvailable {
 		fw.Fatalf("C15 needs the treegen table (build through ./check)")
 	}
-	c.Rule = "catalogue module with every instruction and terminator kind (kinds listed from the CURRENT source by go/types; a kind without an instance is a machinery error) in all variants of optional operands and list lengths 0,1,2 (args, bundles x inputs, incomings, cases, clauses, handlers, indices, targets), parsed by asm, plus constructor-built terminators/instructions whose argument slices are later mutated by the caller. For EVERY user: Operands() == set of value-typed slots found by reflection (before and after list-element replacement / reallocation), a uniquely named same-typed replacement written through EVERY slot changes exactly that one occurrence in LLString() and restores, Succs() == printed branch targets in order and inside the function (also after writing another block through every target slot); for EVERY value of every function, substituting it through the slots of all users leaves no occurrence. distinct = (user, slot, oracle)."
+	c.Rule = "catalogue module with every instruction and terminator kind (kinds listed from the CURRENT source by go/types; a kind without an instance is a machinery error) in all variants of optional operands and list lengths 0,1,2 (args, bundles x inputs, incomings, cases, clauses, handlers, indices, targets), parsed by asm, plus constructor-built terminators/instructions whose argument slices are later mutated by the caller. For EVERY user: Operands() == set of value-typed slots found by reflection (before and after list-element replacement / reallocation), a uniquely named same-typed replacement written through EVERY slot changes exactly that one occurrence in LLString(), changes the text of NO other instruction of the function (every instruction of the catalogue has a textual twin in its function) and restores, Succs() == printed branch targets in order and inside the function (also after writing another block through every target slot); for EVERY value of every function, substituting it through the slots of all users leaves no occurrence. distinct = (user, slot, oracle)."
 	m := c15parse()
 	us := c15users(m)
 	seenKinds := map[string]int{}
